@@ -38,6 +38,8 @@ pub enum Spec {
     Debug([u64; 4]),
     PhaseCorr(u64),
     Pwe(u64),
+    PweDefault,
+    ModRaw { seg: u8, tr: Tr, rep: u16, div: u16, bytes: Vec<u8> },
     SilSteps(u16, u16, bool),
     SilRate(u16, u16),
     Gain { seg: u8, tr: Tr, seed: u64 },
@@ -70,6 +72,8 @@ impl Spec {
             Spec::Debug(v) => format!("debug {:x} {:x} {:x} {:x}", v[0], v[1], v[2], v[3]),
             Spec::PhaseCorr(s) => format!("phasecorr {s}"),
             Spec::Pwe(s) => format!("pwe {s}"),
+            Spec::PweDefault => "pwedefault".into(),
+            Spec::ModRaw { seg, tr, rep, div, bytes } => format!("modraw {seg} {} {rep} {div} {}", tr_str(tr), hex(bytes)),
             Spec::SilSteps(i, p, s) => format!("silsteps {i} {p} {}", *s as u8),
             Spec::SilRate(i, p) => format!("silrate {i} {p}"),
             Spec::Gain { seg, tr, seed } => format!("gain {seg} {} {seed}", tr_str(tr)),
@@ -98,6 +102,8 @@ impl Spec {
             Spec::Debug(_) => "debug",
             Spec::PhaseCorr(_) => "phasecorr",
             Spec::Pwe(_) => "pwe",
+            Spec::PweDefault => "pwe",
+            Spec::ModRaw { .. } => "mod",
             Spec::SilSteps(..) => "silsteps",
             Spec::SilRate(..) => "silrate",
             Spec::Gain { .. } => "gain",
@@ -229,6 +235,13 @@ pub fn build<V: DgVisitor>(spec: &Spec, v: V) -> V::R {
                 PulseWidth::new((b[2 * k] as u16 | ((b[2 * k + 1] as u16) << 8)) % 512).unwrap()
             }
         })),
+        Spec::PweDefault => v.visit(PulseWidthEncoder::default()),
+        Spec::ModRaw { seg, tr, rep, div, bytes } => v.visit(WithLoopBehavior::new(
+            autd3::modulation::Custom::new(bytes, to_div(div)),
+            to_loop(rep),
+            to_segment(seg),
+            tr.map(to_transition),
+        )),
         Spec::SilSteps(i, p, strict) => v.visit(Silencer::new(FixedCompletionSteps {
             intensity: NonZeroU16::new(i).unwrap(),
             phase: NonZeroU16::new(p).unwrap(),
@@ -306,6 +319,9 @@ pub struct World {
     pub geo: Geometry,
     pub tx: Vec<TxMessage>,
     pub t: u64,
+    /// when set, every delivered frame of the current send is kept: (device, 626 bytes)
+    pub keep_frames: bool,
+    pub frames: Vec<(usize, Vec<u8>)>,
 }
 
 pub struct SendOutcome {
@@ -401,10 +417,11 @@ impl World {
         for c in cpus.iter_mut() {
             c.update_with_sys_time(DcSysTime::ZERO + Duration::from_nanos(t0));
         }
-        World { cpus, geo, tx: vec![TxMessage::new_zeroed(); n], t: t0 }
+        World { cpus, geo, tx: vec![TxMessage::new_zeroed(); n], t: t0, keep_frames: false, frames: vec![] }
     }
 
     fn clear_payloads(&mut self) {
+        self.frames.clear();
         for t in self.tx.iter_mut() {
             t.payload_mut().fill(0);
             t.header.slot_2_offset = 0;
@@ -415,6 +432,10 @@ impl World {
         let mut bad = None;
         for (i, cpu) in self.cpus.iter_mut().enumerate() {
             *fh = hash_frame(*fh, i, &self.tx[i]);
+            if self.keep_frames {
+                use zerocopy::IntoBytes;
+                self.frames.push((i, self.tx[i].as_bytes().to_vec()));
+            }
             cpu.send(&self.tx);
             if (cpu.rx().ack() & ERR_BIT) == ERR_BIT && bad.is_none() {
                 bad = Some(cpu.rx().ack());
@@ -700,6 +721,8 @@ pub struct Session<'o> {
     pub w: World,
     pub dead: bool,
     pub log: Vec<String>,
+    /// message of the panic that killed the session
+    pub panic_msg: Option<String>,
 }
 
 impl<'o> Session<'o> {
@@ -707,13 +730,14 @@ impl<'o> Session<'o> {
         let w = World::new(n, t0);
         let line = format!("reset {n} {t0}");
         out.line(&line, "ok");
-        Session { out, w, dead: false, log: vec![line] }
+        Session { out, w, dead: false, log: vec![line], panic_msg: None }
     }
     fn emit(&mut self, op: String, ans: Result<String, String>) -> String {
         let a = match ans {
             Ok(a) => a,
-            Err(_) => {
+            Err(m) => {
                 self.dead = true;
+                self.panic_msg = Some(m);
                 "panic".to_string()
             }
         };
@@ -787,5 +811,148 @@ impl<'o> Session<'o> {
             self.w.cpus[dev].fpga_mut().deassert_thermal_sensor();
         }
         let _ = self.emit(format!("thermo {dev} {}", on as u8), Ok("ok".into()));
+    }
+}
+
+// ------------------------------------------------------------------------------------------------
+// resources (DESIGN Appendix B): what a datagram addresses, and the observable state of each
+
+#[derive(Clone, Copy, Debug, PartialEq, Eq)]
+pub enum Res {
+    ModSeg(u8),
+    ModReq,
+    StmSeg(u8),
+    StmReq,
+    Silencer,
+    Pwe,
+    PhaseCorr,
+    Debug,
+    Fan,
+    GpioIn,
+    Reads,
+    Sync,
+    PortA,
+}
+
+pub const ALL_RES: [Res; 15] = [
+    Res::ModSeg(0),
+    Res::ModSeg(1),
+    Res::ModReq,
+    Res::StmSeg(0),
+    Res::StmSeg(1),
+    Res::StmReq,
+    Res::Silencer,
+    Res::Pwe,
+    Res::PhaseCorr,
+    Res::Debug,
+    Res::Fan,
+    Res::GpioIn,
+    Res::Reads,
+    Res::Sync,
+    Res::PortA,
+];
+
+/// resources a datagram writes (everything for Clear)
+pub fn touches(s: &Spec) -> Vec<Res> {
+    let with = |base: Res, req: Res, tr: &Tr| if tr.is_some() { vec![base, req] } else { vec![base] };
+    match s {
+        Spec::Clear => ALL_RES.to_vec(),
+        Spec::Sync => vec![Res::Sync],
+        Spec::Fan(_) => vec![Res::Fan],
+        Spec::GpioIn(_) => vec![Res::GpioIn],
+        Spec::Reads(_) | Spec::FirmInfo(_) => vec![Res::Reads],
+        Spec::CpuGpio(_) => vec![Res::PortA],
+        Spec::Debug(_) => vec![Res::Debug],
+        Spec::PhaseCorr(_) => vec![Res::PhaseCorr],
+        Spec::Pwe(_) | Spec::PweDefault => vec![Res::Pwe],
+        Spec::SilSteps(..) | Spec::SilRate(..) => vec![Res::Silencer],
+        Spec::Gain { seg, tr, .. } => with(Res::StmSeg(*seg), Res::StmReq, tr),
+        Spec::Mod { seg, tr, .. } | Spec::ModRaw { seg, tr, .. } => with(Res::ModSeg(*seg), Res::ModReq, tr),
+        Spec::Foci { seg, tr, .. } | Spec::GainStm { seg, tr, .. } => with(Res::StmSeg(*seg), Res::StmReq, tr),
+        Spec::SwapGain(..) | Spec::SwapFoci(..) | Spec::SwapGainStm(..) => vec![Res::StmReq],
+        Spec::SwapMod(..) => vec![Res::ModReq],
+    }
+}
+
+/// STM content with the phase correction removed (so that PhaseCorrection and STM memory are separate resources)
+pub fn stm_hash_nopc(cpu: &CPUEmulator, seg: Segment) -> String {
+    let f = cpu.fpga();
+    let pc: Vec<u8> = f.phase_correction().iter().map(|p| p.0).collect();
+    let cycle = f.stm_cycle(seg);
+    let gain = f.is_stm_gain_mode(seg);
+    let nf = f.num_foci(seg) as usize;
+    let mut h = 0u64;
+    for i in sample_idx(cycle, if gain { 64 } else { nf }) {
+        match guarded(|| f.drives_at(seg, i)) {
+            Ok(ds) => {
+                let mut ws = vec![(h & 0xFFFF) as u16, (h >> 48) as u16];
+                ws.extend(ds.iter().enumerate().map(|(k, d)| d.phase.0.wrapping_sub(pc[k]) as u16 | ((d.intensity.0 as u16) << 8)));
+                h = fnv64(&words_bytes(&ws));
+            }
+            Err(_) => return "P".into(),
+        }
+    }
+    h.to_string()
+}
+
+/// time-independent observable state of a resource
+pub fn res_obs(cpu: &CPUEmulator, r: Res) -> String {
+    let f = cpu.fpga();
+    let g = |x: Result<String, String>| x.unwrap_or_else(|_| "P".into());
+    match r {
+        Res::ModSeg(s) => {
+            let s = to_segment(s);
+            format!("{} {} {} {}", mod_hash(cpu, s), f.modulation_freq_division(s), f.modulation_loop_behavior(s).rep(), f.modulation_cycle(s))
+        }
+        Res::ModReq => format!(
+            "{} {}",
+            g(guarded(|| (f.req_modulation_segment() as u8).to_string())),
+            tmode_str(guarded(|| f.modulation_transition_mode()))
+        ),
+        Res::StmSeg(s) => {
+            let s = to_segment(s);
+            let gain = f.is_stm_gain_mode(s);
+            let extra = if gain { String::new() } else { format!(" {} {}", f.sound_speed(s), f.num_foci(s)) };
+            format!("{} {} {} {} {}{extra}", stm_hash_nopc(cpu, s), gain as u8, f.stm_freq_division(s), f.stm_loop_behavior(s).rep(), f.stm_cycle(s))
+        }
+        Res::StmReq => format!("{} {}", g(guarded(|| (f.req_stm_segment() as u8).to_string())), tmode_str(guarded(|| f.stm_transition_mode()))),
+        Res::Silencer => {
+            // the *effective* configuration: in update-rate mode the completion-step registers (and the
+            // strict flag that belongs to them) are dead values, and vice versa
+            if f.silencer_fixed_update_rate_mode() {
+                let ur = f.silencer_update_rate();
+                format!("rate {}/{}", ur.intensity.get(), ur.phase.get())
+            } else {
+                let steps = g(guarded(|| {
+                    let s = f.silencer_completion_steps();
+                    format!("{}/{}", s.intensity.get(), s.phase.get())
+                }));
+                format!("steps {steps} strict={}", cpu.silencer_strict_mode() as u8)
+            }
+        }
+        Res::Pwe => g(guarded(|| {
+            let t: Vec<u16> = f.pulse_width_encoder_table().iter().map(|p| p.pulse_width()).collect();
+            fnv64(&words_bytes(&t)).to_string()
+        })),
+        Res::PhaseCorr => {
+            let pc: Vec<u8> = f.phase_correction().iter().map(|p| p.0).collect();
+            fnv64(&pc).to_string()
+        }
+        Res::Debug => format!("{:?} {:?}", f.debug_types(), f.debug_values()),
+        Res::Fan => format!("{}", f.is_force_fan() as u8),
+        Res::GpioIn => format!("{:?}", f.gpio_in()),
+        Res::Reads => format!("{}", cpu.reads_fpga_state() as u8),
+        Res::Sync => format!("{}", cpu.synchronized() as u8),
+        Res::PortA => format!("{}", cpu.port_a_podr()),
+    }
+}
+
+/// time-evolving part (what the device is playing now)
+pub fn res_dyn(cpu: &CPUEmulator, r: Res) -> String {
+    let f = cpu.fpga();
+    match r {
+        Res::ModReq => format!("{}/{}", f.current_mod_segment() as u8, f.current_mod_idx()),
+        Res::StmReq => format!("{}/{}", f.current_stm_segment() as u8, f.current_stm_idx()),
+        _ => String::new(),
     }
 }
